@@ -567,13 +567,21 @@ class FileCache:
 
         # for all URI's not in cache
         if cache_misses := self.get_cache_misses(uris, directives):
-            was_succesfully_downloaded = _download_from_resources(
-                cache_misses,
-                self.resources,
-                parallel_download=self.config.parallel,
-                disable_progress_bar=self.disable_progress_bar,
-                desc=self.description,
-            )
+            try:
+                was_succesfully_downloaded = _download_from_resources(
+                    cache_misses,
+                    self.resources,
+                    parallel_download=self.config.parallel,
+                    disable_progress_bar=self.disable_progress_bar,
+                    desc=self.description,
+                )
+            except BaseException:
+                # A failed request must not leave unregistered cache files
+                # behind: discard what was downloaded before the failure.
+                for cache_miss in cache_misses:
+                    if os.path.exists(cache_miss.filepath):
+                        os.remove(cache_miss.filepath)
+                raise
 
             for cache_miss, success in zip(cache_misses, was_succesfully_downloaded):
                 if success:
@@ -692,9 +700,14 @@ def _download_from_resources(
     """
 
     def _worker(cache_miss: CacheMiss) -> bool:
+        # Download and post-process under a temporary name that does not match
+        # the cache file pattern; only a complete file gets its final name, so
+        # an interrupted download is never adopted as a cache entry.
+        temporary_filepath = cache_miss.filepath + ".part"
         try:
-            cache_miss.download_function(cache_miss.uri, cache_miss.filepath)
-            cache_miss.post_process_function(cache_miss.filepath)
+            cache_miss.download_function(cache_miss.uri, temporary_filepath)
+            cache_miss.post_process_function(temporary_filepath)
+            os.replace(temporary_filepath, cache_miss.filepath)
             return True
         except _RemoteResourceUriNotFound as e:
             if cache_miss.allow_for_missing_files:
@@ -704,6 +717,9 @@ def _download_from_resources(
             else:
                 raise e
             return False
+        finally:
+            if os.path.exists(temporary_filepath):
+                os.remove(temporary_filepath)
 
     # construct the arguments to be used for parallel downloading of files.
     # Specifically, we need to match the right resource for downloading to the
